@@ -50,3 +50,7 @@ def run(ctx):
                             'distinct = distinct (w,image,input,engine); non-trivial = the run executed >= 2 ops')
     ctx.assumptions += ['the C text and CPython are tied to the model only by this differential campaign',
                         'watchdog expiries are compared only as "model does not halt within the fuel"']
+
+
+def replay(ctx, path):
+    return ec.replay(ctx, path)
